@@ -55,6 +55,9 @@ import (
 const c10Prior = "rule \"a\" \"a-v1\" salience 10 begin return \"a-v1\" end\n" +
 	"rule \"b\" \"b-v1\" salience 5 begin return \"b-v1\" end\n"
 
+// added by an incremental build between two full builds of the same text
+const c10Extra = "rule \"zz-extra\" \"extra\" salience 77 begin return \"extra\" end\n"
+
 func c10PriorSet() ref.RuleSet {
 	return ref.RuleSet{
 		"a": {Salience: 10, Desc: "a-v1", BodyTag: "a-v1"},
@@ -768,7 +771,7 @@ func c10Judge(text string, dup bool, st *c10Stats) []hx.Finding {
 	// A holding builder whose last submission was rejected and verifiably left it unchanged serves
 	// the next submission too (it is in the prior state, and a sequence of rejected submissions is
 	// itself a history the property quantifies over); otherwise a new one is built.
-	var reusable *builder.RuleBuilder
+	var reusable, refRB *builder.RuleBuilder
 	for bi, bc := range []struct {
 		kind    string
 		holding bool
@@ -801,6 +804,7 @@ func c10Judge(text string, dup bool, st *c10Stats) []hx.Finding {
 		if bi == 0 {
 			refOK = !s.Panicked && !s.Rejected
 			if refOK {
+				refRB = rb
 				defs = c10SnapKc(rb).ruleSet(func(n string) string { return "text:" + n })
 				for _, n := range defs.Names() {
 					known := false
@@ -883,6 +887,21 @@ func c10Judge(text string, dup bool, st *c10Stats) []hx.Finding {
 		}
 		if bad != "" {
 			complain(s, "accept-wrong-state", "succeeded but "+bad)
+		}
+	}
+
+	// ---- the same text once more on the builder that accepted it, after an incremental build that
+	// added a rule and re-defined nothing else in between: a full build replaces whatever is installed
+	if refOK && refRB != nil {
+		if err, pan, _, _ := c10Guard(func() error { return refRB.BuildRuleWithIncremental(c10Extra) }); err == nil && !pan {
+			s := c10Submit("builder-full", "after-incremental", func() error { return refRB.BuildRuleFromString(text) })
+			subs = append(subs, s)
+			if !s.Panicked && !s.Rejected {
+				got := c10SnapKc(refRB).ruleSet(func(n string) string { return "text:" + n })
+				if got.String() != defs.String() {
+					complain(s, "accept-wrong-state", fmt.Sprintf("succeeded (same text again, after an incremental build that added %q) but the installed set is %s, expected %s", "zz-extra", got, defs))
+				}
+			}
 		}
 	}
 
@@ -1253,7 +1272,7 @@ func init() {
 			"(iv) 3-rule texts with one name defined twice in every position pair (fresh and installed names, equal and different bodies) and texts re-defining installed names once; " +
 			"(i) the single-token-edit neighbourhood (every deletion, every substitution and insertion from a 36-token alphabet: all keywords, brackets, operators, literal forms, dotted names, @name, `#`, an unterminated string, `//`) of 2 (thorough: 6) valid seed texts covering every statement and expression form; " +
 			"thorough adds pairs of edits at token distance <= 3 over a 3-token alphabet. " +
-			"Each text is submitted to builder full/incremental (empty, holding {a,b}), pool construction, pool full/incremental update (holding {a,b}, cleared) = 9 submissions (the first, a full build on a separate fresh builder, also tells which rules the text defines); " +
+			"Each text is submitted to builder full/incremental (empty, holding {a,b}), pool construction, pool full/incremental update (holding {a,b}, cleared) = 9 submissions, plus - for accepted texts - the same full build once more on the builder that accepted it after an incremental build added another rule (the first, a full build on a separate fresh builder, also tells which rules the text defines); " +
 			"judged: returns normally, verdict agreement, rejected => state unchanged (Kc snapshot / pool queries + execution), accepted => ref.Replace / ref.Merge of the prior set with the rules of the reference build, duplicate names rejected",
 		Assume: []string{
 			"agreement of the entry points is the reference for the accepted language; a text every entry point wrongly accepts or rejects is not detected",
